@@ -76,7 +76,7 @@ func appendUvarint(dst []byte, u uint64) []byte {
 
 func zigzag32(i int32) uint64 { return uint64(uint32((int64(i) << 1) ^ (int64(i) >> 31))) }
 func zigzag64(i int64) uint64 { return uint64(i<<1) ^ uint64(i>>63) }
-func unzig(u uint64) int64   { return int64(u>>1) ^ -int64(u&1) }
+func unzig(u uint64) int64    { return int64(u>>1) ^ -int64(u&1) }
 
 // readUvarint decodes an unsigned varint of at most maxBytes bytes that must fit in
 // bits bits.
@@ -111,15 +111,15 @@ var errShort = errors.New("not enough data")
 type MarkKind int
 
 const (
-	MBoundary    MarkKind = iota // start of a field / element / struct
-	MLenI16                      // int16 length (string)
-	MLenI32                      // int32 length (bytes, array)
-	MLenCompact                  // uvarint length+1
-	MLenVarint                   // zig-zag varint length
-	MTagCount                    // uvarint number of tags
-	MTagKey                      // uvarint tag key
-	MTagSize                     // uvarint tag size
-	MStructMarker                // nullable struct int8 marker
+	MBoundary     MarkKind = iota // start of a field / element / struct
+	MLenI16                       // int16 length (string)
+	MLenI32                       // int32 length (bytes, array)
+	MLenCompact                   // uvarint length+1
+	MLenVarint                    // zig-zag varint length
+	MTagCount                     // uvarint number of tags
+	MTagKey                       // uvarint tag key
+	MTagSize                      // uvarint tag size
+	MStructMarker                 // nullable struct int8 marker
 )
 
 // Mark is a recorded position in an encoding produced by the reference encoder.
